@@ -18,7 +18,7 @@ RULE = ("Mode G: edge plog.from_b64(x.to_b64()) (applied twice) from EVERY valid
 ASSUMPTIONS = ["pickle/gzip/base64 of the standard library are trusted", "caches are cleared per case (C09 owns cache state)"]
 BOUNDS = {"quick": "abc explicit/generated, at explicit, fixed/ab, diamonds explicit, conn2/ab generated, conn1s/abc; all 1..2-rule configurators",
           "thorough": "quick + abt, abct, conn2/abc generated/explicit, closure/ab, 3-rule configurators"}
-QUICK = ["abc/explicit", "abc/generated", "at/explicit", "fixed/ab", "diamond/explicit", "conn2/ab/generated", "conn1s/abc/generated/a3"]
+QUICK = ["abc/explicit", "abc/generated", "at/explicit", "fixed/ab", "diamond/explicit", "conn2/ab/generated", "conn1s/abc/generated/a3", "atmostneg/explicit"]
 THOROUGH = QUICK + ["abt/explicit", "abct/explicit", "conn2/abc/generated", "conn2/abc/explicit", "closure/ab/generated", "diamond/generated"]
 
 
@@ -27,11 +27,15 @@ def shards(tier):
     from .c16 import cfg_list
     n = len(cfg_list(tier))
     out += [("cfg", None, lo, min(n, lo + 10)) for lo in range(0, n, 10)]
+    out += [("direct", None, 0, 1)]
     return out
 
 
 def run_shard(desc, acc, tier):
     kind, fam, lo, hi = desc
+    if kind == "direct":
+        check_direct(acc)
+        return
     if kind == "plog":
         for k, m in enumerate(families.family(fam)[lo:hi], start=lo):
             check_plog(m, fam, k, acc)
@@ -197,7 +201,38 @@ def check_cfg(k, tier, acc):
         acc.sample({"configurator": name, "b64_length": len(s1), "columns": [repr(v.id) for v in P.A.variables]})
 
 
+def check_direct(acc):
+    """ge_polyhedron_config objects built directly: custom row index, non-default default_prio_vector, integer columns, dtype int32."""
+    import itertools as it
+    mats = [[[1, 1, 1, 0], [-1, -1, 0, -1]], [[0, -2, 1, 1]], [[2, 1, 1, -1], [0, 1, -1, 0], [-3, -1, -1, -1]]]
+    for mi, M in enumerate(mats):
+        ncol = len(M[0]) - 1
+        for vi, variables in enumerate(([], [puan.variable.support_vector_variable()] + [puan.variable(f"v{j}", (0, 1) if j % 2 else (-1, 2)) for j in range(ncol)])):
+            for ii, index in enumerate(([], [puan.variable(f"row{i}", (0, 1)) for i in range(len(M))], list(range(10, 10 + len(M))))):
+                for di, dpv in enumerate((None, np.array([-(j + 1) for j in range(ncol)]))):
+                    for dt in (np.int64, np.int32):
+                        case = {"kind": "direct", "m": mi, "v": vi, "i": ii, "d": di, "dtype": dt.__name__}
+                        acc.n("traces")
+                        acc.n("transitions", 2)
+                        acc.state(("direct", mi, vi, ii, di, dt.__name__))
+                        try:
+                            P = pnd.ge_polyhedron_config(np.array(M), default_prio_vector=dpv, variables=variables, index=index, dtype=dt)
+                            Q = pnd.ge_polyhedron_config.from_b64(P.to_b64())
+                        except BaseException as e:
+                            acc.violation(None, case, {"what": "direct polyhedron round trip raised", "exc": repr(e)})
+                            continue
+                        fP, fQ = fingerprint(P), fingerprint(Q)
+                        if fP != fQ or type(Q) is not type(P):
+                            acc.violation(None, case, {"what": "unpacked configurator polyhedron is not identical (matrix, dtype, variables, index, default priority vector)",
+                                                       "diff": diff(fP, fQ)})
+                            continue
+                        acc.nontriv(("direct", mi, vi, ii, di, dt.__name__))
+
+
 def replay(case, acc):
+    if case.get("kind") == "direct":
+        check_direct(acc)
+        return
     from ..runner import tuplify
     if case["kind"] == "plog":
         check_plog(tuplify(case["ast"]), case["fam"], case["k"], acc)
